@@ -30,6 +30,8 @@ def texts(language, rng, seed, sizes):
         raw = pipeline.raw_tokens(language, p.text)
         for kind, ops, t in hostile.token_mutations(p.text, raw, rng, per):
             yield kind, t
+        for kind, ops, t in hostile.separator_mutations(p.text, rng, max(4, per // 3)):
+            yield kind, t
     # G2 (iii): token soups
     for i in range(sizes.get("soups", 0)):
         yield "soup", hostile.soup(language, rng)
